@@ -379,7 +379,7 @@ end Constrained
 /-- `solve_fixed_point_direct`: if it returns `y` then `y = func(x')` for the previous iterate `x'`
 with `norm(y - x') < convergence_tol` (an approximate fixed point); otherwise `ConvergenceError`.
 With `convergence_tol → 0` this is the exact-solver hypothesis of the `…_reverse_exact` theorems. -/
-theorem solveDirect_returns {K V : Type*} [Field K] [LinearOrder K] [AddCommGroup V]
+theorem solveDirect_returns {K V : Type*} [Field K] [LinearOrder K] [Sub V]
     (norm : V → K) (ctol dtol : K) (fuel : Nat) (f : V → V) (x0 y : V)
     (h : solveDirect norm ctol dtol fuel f x0 = .ok y) :
     ∃ x', y = f x' ∧ norm (y - x') < ctol := by
